@@ -59,7 +59,7 @@ def contract(v, a, b, r):
 
 
 class StepEnv:
-    def __init__(self, run, nmoves, kind, ply_concrete=None, abortable=False, limits=None):
+    def __init__(self, run, nmoves, kind, ply_concrete=None, abortable=False, limits=None, cache_entry=False):
         """kind: 'alpha_beta' | 'quiescence' | 'root'"""
         self.run, self.kind, self.n = run, kind, nmoves
         A.INT_MODE[0] = True
@@ -84,8 +84,29 @@ class StepEnv:
         self.env = {'cache': False}
         if abortable:
             self.env['stop'] = 'any'
+        if cache_entry:
+            self.env['cache'] = True
         A.install(self.ex, self.G, self.env)
         self.ex.int_types = {'i16'}
+        self.entry = None
+        if cache_entry:
+            # the cache holds an ARBITRARY entry (or none) for the node under test: any score, depth, bound kind and any
+            # of the node's generated moves as stored move; what is assumed about it is stated by the caller
+            n0_ = self.G.nodes[0]
+            has = z3.Bool('tt_has_entry')
+            score = z3.Int('tt_score')
+            depth = z3.BitVec('tt_depth', 8)
+            bound = z3.BitVec('tt_bound', 64)
+            pick = z3.BitVec('tt_move_pick', 8)
+            mv = self.G.ply_value(0, 0) if n0_['moves'] else None
+            for i in range(1, len(n0_['moves'])):
+                mv = ite(pick == i, self.G.ply_value(0, i), mv)
+            if mv is None:
+                raise Unsupported('cache entry for a node without generated moves')
+            self.entry = {'has': has, 'score': score, 'depth': depth, 'bound': bound, 'pick': pick}
+            self.G.pre += [z3.ULT(bound, 3), z3.ULT(pick, max(len(n0_['moves']), 1)), score >= MIN16, score <= MAX16]
+            self.ex.static_values['board::transposition_table::TRANSPOSITION_TABLE'] = A.MapV(
+                {n0_['key']: (has, (score, depth, Enum(bound, {0: (), 1: (), 2: ()}), mv))})
         self.pre = list(self.G.pre)
         for x in self.v + [self.q]:
             self.pre.append(z3.And(x >= MIN16 + 1, x <= MAX16))
